@@ -41,6 +41,9 @@ type Task struct {
 	Root       bool
 
 	kids map[string]int
+
+	// Releases counts how often the scheduler has released this task.
+	Releases int
 }
 
 func (t *Task) snapshot() (int32, string, any) {
@@ -503,6 +506,7 @@ func (s *Sim) ready() ([]readyTask, int) {
 
 func (s *Sim) release(t *Task) {
 	t.mu.Lock()
+	t.Releases++
 	t.state = stRunning
 	t.mu.Unlock()
 	t.wake <- struct{}{}
